@@ -14,6 +14,7 @@ From I18n Require Import Lib.Outcome Model.IntExpr Model.PluralForms Model.MoPar
 From I18n Require Import Lib.Outcome Model.IntExpr Model.PluralForms Model.Encodings Model.Iconv.
 From I18n Require Import Lib.Outcome Model.IntExpr Model.PluralForms Model.Tags Generated.UcdPrintable
   Model.Messages Generated.StringFormats Generated.ControlChars.
+From I18n Require Import Lib.Outcome Model.IntExpr Model.PluralForms Lib.CFmtSyntax Model.FmtC.
 Extraction Language OCaml.
 Extraction "model.ml"
   IntExpr.parse_string IntExpr.pyeval IntExpr.codomain IntExpr.period
@@ -37,4 +38,5 @@ Extraction "model.ml"
   Iconv.iconv_decode Iconv.iconv_encode
   Messages.check_messages Messages.check_flags Messages.find_unusual Messages.search_marker Messages.xml_trigger
   StringFormats.string_formats ControlChars.control_character_names
+  FmtC.fmtc_tokens FmtC.fmtc_parse FmtC.fmtc_glic
   .
